@@ -461,6 +461,13 @@ public:
 	Array& append(const T* p, int n)
 	{
 		int m=length();
+		if (p >= _a && p < _a + m) // p points into this array: it moves with the block if resize() reallocates
+		{
+			int k = int(p - _a);
+			resize(m + n);
+			p = _a + k;
+		}
+		else
 		resize(m + n);
 		for (int i=0; i<n; i++)
 			_a[m+i] = p[i];
